@@ -19,10 +19,10 @@ type base struct {
 	expected    []string
 }
 
-func (b *base) ID() string                    { return b.id }
-func (b *base) Level() string                 { return b.level }
-func (b *base) Rule() string                  { return b.rule }
-func (b *base) Assumptions() []string         { return b.assumptions }
+func (b *base) ID() string                     { return b.id }
+func (b *base) Level() string                  { return b.level }
+func (b *base) Rule() string                   { return b.rule }
+func (b *base) Assumptions() []string          { return b.assumptions }
 func (b *base) Mandatory(tier string) []string { return b.mandatory }
 func (b *base) Expected(tier string) []string  { return b.expected }
 
